@@ -5,7 +5,7 @@ import Agd.Model.Access
 
 `Agd.Gen.TrC10.*` are regenerated on every run (`extract/tr.go`) from `internal/access/profile.go`
 (`matchASNs`, `isBlockedByNets`, `IsBlocked`) and `internal/dnssvc/internal/ratelimitmw`
-(`isBlockedByAccess`, and the handler closure that `Middleware.Wrap` returns).  The engines
+(`isBlockedGlobally` / `isBlockedByProfile` — `isBlockedByAccess` until the fifth deepening —, and the handler closure that `Middleware.Wrap` returns).  The engines
 (`IsBlockedIP`, `IsBlockedHost`, the profile's `IsBlocked`), the device finder and the next handler
 are opaque: their results are parameters, the calls appear in the returned trace.  All theorems are
 about the translated definitions themselves and hold for every value of every parameter.
@@ -43,27 +43,38 @@ theorem profile_blocked_iff (p : S_access_DefaultProfile) (l : Option S_geoip_Lo
     profile_IsBlocked p l u nets hosts = (nets || hosts) := by
   simp [profile_IsBlocked]
 
-/-! ## `isBlockedByAccess` -/
+/-! ## `isBlockedGlobally` and `isBlockedByProfile` (fifth deepening: the former `isBlockedByAccess`, split so that
+the global part can run before the device lookup) -/
+
+/-- The handler's access decision as the two translated functions compose it in `Wrap`: the profile
+part is consulted only when the global part lets the request pass. -/
+def accessDecision (mw : S_ratelimitmw_Middleware) (ri : Option S_agd_RequestInfo) (q : Unit) (host name : String)
+    (ip hostB : Bool) (qt : Int) (dd : Option S_agd_Profile × Option S_agd_Device) (prof : Bool) : Bool :=
+  (isBlockedGlobally mw q host name ip hostB qt).1 || (isBlockedByProfile mw ri dd prof).1
 
 /-- A request is rejected iff the global engine blocks its address, or its question, or it has a
 profile whose access settings reject it — nothing else enters the decision (in particular not the
 filtering switches of the profile or device). -/
-theorem access_blocked_iff (mw : S_ratelimitmw_Middleware) (ri : Option S_agd_RequestInfo) (host name : String)
-    (ip hostB : Bool) (dd : Option S_agd_Profile × Option S_agd_Device) (prof : Bool) :
-    (isBlockedByAccess mw ri host name ip hostB dd prof).1 = (ip || hostB || (dd.1.isSome && prof)) := by
-  unfold isBlockedByAccess
+theorem access_blocked_iff (mw : S_ratelimitmw_Middleware) (ri : Option S_agd_RequestInfo) (q : Unit) (host name : String)
+    (ip hostB : Bool) (qt : Int) (dd : Option S_agd_Profile × Option S_agd_Device) (prof : Bool) :
+    accessDecision mw ri q host name ip hostB qt dd prof = (ip || hostB || (dd.1.isSome && prof)) := by
+  unfold accessDecision isBlockedGlobally isBlockedByProfile
   cases ip <;> cases hostB <;> cases hd : dd.1 <;> cases prof <;> simp [hd]
 
-/-- Order of consultation: global subnets, then global names (with the normalised question name),
-then — only for a request with a profile that nothing global rejects — the profile. -/
-theorem access_order (mw : S_ratelimitmw_Middleware) (ri : Option S_agd_RequestInfo) (host name : String)
-    (ip hostB : Bool) (dd : Option S_agd_Profile × Option S_agd_Device) (prof : Bool) :
-    let tr := names (isBlockedByAccess mw ri host name ip hostB dd prof).2
-    tr.take 2 = ["NormalizeQueryDomain", "IsBlockedIP"] ∧
-    (ip = true → "IsBlockedHost" ∉ tr ∧ "IsBlocked" ∉ tr) ∧
-    (ip = false → hostB = true → "IsBlockedHost" ∈ tr ∧ "IsBlocked" ∉ tr) ∧
-    ("IsBlocked" ∈ tr ↔ (ip = false ∧ hostB = false ∧ dd.1.isSome)) := by
-  unfold isBlockedByAccess names
+/-- Order of consultation inside the two functions: global subnets, then global names (with the normalised
+question name and the question's type); the profile's settings only for a request with a profile.  The global
+function looks at nothing but the request and the client address (its parameters: no request information,
+no device result). -/
+theorem access_order (mw : S_ratelimitmw_Middleware) (ri : Option S_agd_RequestInfo) (q : Unit) (host name : String)
+    (ip hostB : Bool) (qt : Int) (dd : Option S_agd_Profile × Option S_agd_Device) (prof : Bool) :
+    let tg := names (isBlockedGlobally mw q host name ip hostB qt).2
+    let tp := names (isBlockedByProfile mw ri dd prof).2
+    tg.take 2 = ["NormalizeQueryDomain", "IsBlockedIP"] ∧
+    (ip = true → "IsBlockedHost" ∉ tg) ∧
+    (ip = false → "IsBlockedHost" ∈ tg) ∧
+    "IsBlocked" ∉ tg ∧ "DeviceData" ∉ tg ∧
+    ("IsBlocked" ∈ tp ↔ dd.1.isSome) := by
+  unfold isBlockedGlobally isBlockedByProfile names
   cases ip <;> cases hostB <;> cases hd : dd.1 <;> cases prof <;> simp [hd]
 
 /-! ## The handler: a rejected request reaches no later stage -/
@@ -72,50 +83,79 @@ theorem access_order (mw : S_ratelimitmw_Middleware) (ri : Option S_agd_RequestI
 def laterStages : List String :=
   ["handleDeviceResult", "serveDeviceErr", "serveLocationErr", "ContextWithRequestInfo", "serveWithRatelimiting"]
 
-/-- When the access check rejects the request, the handler returns no error, and neither the device
+/-- Calls that look the client up: the GeoIP database (whose errors are reported) and the device finder inside
+`newRequestInfo` (which may create an automatic device through the backend). -/
+def lookups : List String := ["location", "newRequestInfo"]
+
+/-- Fifth deepening.  When the *global* access check rejects the request, the handler's whole trace is that one
+call: no error, no location lookup, no device lookup (hence no automatic device), no request information taken
+from the pool, none of the later stages.  (Hypothesis: a usable peer port.) -/
+theorem global_blocked_does_nothing (mw : S_ratelimitmw_Middleware) (u1 u3 : Unit) (port : Int)
+    (loc : Option S_geoip_Location × Option S_dnsmsg_ECS × Option String) (ri : Option S_agd_RequestInfo) (pb : Bool)
+    (dev : Bool × Option String) (de le : Option String) (cx : AbsPtr) (next : Option String) (hp : port ≠ 0) :
+    Wrap_handler mw u1 port u3 true loc ri pb dev de le cx next = some (none, [("isBlockedGlobally", ["_", "_", "_"])]) := by
+  simp [Wrap_handler, hp]
+
+/-- When the access check — global or profile — rejects the request, the handler returns no error, and neither the device
 result (nor `serveDeviceErr`), nor a malformed-ECS answer (`serveLocationErr`; both names since the C09 repair,
-which sends these two answers through the rate limiter), nor the rest of the pipeline is reached; the request-info object is
-given back to its pool exactly once, as the last effect.  (Hypotheses: a usable peer port and a
+which sends these two answers through the rate limiter), nor the rest of the pipeline is reached; a request-info object
+taken from the pool is given back exactly once, as the last effect.  (Hypotheses: a usable peer port and a
 request info, as `newRequestInfo` always returns one.) -/
 theorem blocked_reaches_nothing (mw : S_ratelimitmw_Middleware) (u1 u3 : Unit) (port : Int)
-    (loc : Option S_geoip_Location × Option S_dnsmsg_ECS × Option String) (ri : S_agd_RequestInfo)
-    (dev : Bool × Option String) (de le : Option String) (cx : AbsPtr) (next : Option String) (hp : port ≠ 0) :
-    ∃ tr, Wrap_handler mw u1 port u3 loc (some ri) true dev de le cx next = some (none, tr) ∧
-      (∀ s ∈ laterStages, s ∉ names tr) ∧ (names tr).count "Put" = 1 ∧ (names tr).getLast? = some "Put" := by
-  simp [Wrap_handler, hp, names, laterStages]
+    (loc : Option S_geoip_Location × Option S_dnsmsg_ECS × Option String) (ri : S_agd_RequestInfo) (gb pb : Bool)
+    (dev : Bool × Option String) (de le : Option String) (cx : AbsPtr) (next : Option String) (hp : port ≠ 0)
+    (hb : (gb || pb) = true) :
+    ∃ tr, Wrap_handler mw u1 port u3 gb loc (some ri) pb dev de le cx next = some (none, tr) ∧
+      (∀ s ∈ laterStages, s ∉ names tr) ∧
+      (names tr).count "Put" = (names tr).count "newRequestInfo" ∧
+      (gb = false → (names tr).getLast? = some "Put") ∧
+      (gb = true → ∀ s ∈ lookups, s ∉ names tr) := by
+  cases gb <;> cases pb <;> simp_all [Wrap_handler, names, laterStages, lookups]
 
-/-- The access check comes before everything that could answer the client: in every run that gets as
-far as the device result or the malformed-ECS answer, `isBlockedByAccess` has been called earlier. -/
+/-- The access checks come before everything that could answer the client, and the global one before everything
+that looks the client up: in every run that gets as far as a lookup, the device result or the malformed-ECS answer,
+`isBlockedGlobally` has been called earlier, and `isBlockedByProfile` before every later stage. -/
 theorem access_checked_first (mw : S_ratelimitmw_Middleware) (u1 u3 : Unit) (port : Int)
     (loc : Option S_geoip_Location × Option S_dnsmsg_ECS × Option String) (ri : S_agd_RequestInfo)
-    (blocked : Bool) (dev : Bool × Option String) (de le : Option String) (cx : AbsPtr) (next : Option String)
+    (gb pb : Bool) (dev : Bool × Option String) (de le : Option String) (cx : AbsPtr) (next : Option String)
     (r : Option String) (tr : List (String × List String))
-    (h : Wrap_handler mw u1 port u3 loc (some ri) blocked dev de le cx next = some (r, tr)) (s : String)
-    (hs : s ∈ laterStages) (hin : s ∈ names tr) :
-    ∃ pre post, names tr = pre ++ "isBlockedByAccess" :: post ∧ s ∉ pre := by
+    (h : Wrap_handler mw u1 port u3 gb loc (some ri) pb dev de le cx next = some (r, tr)) (s : String)
+    (hs : s ∈ laterStages ++ lookups) (hin : s ∈ names tr) :
+    (names tr).head? = some "isBlockedGlobally" ∧
+    (s ∈ laterStages → ∃ pre post, names tr = pre ++ "isBlockedByProfile" :: post ∧ s ∉ pre) := by
   by_cases hp : port = 0
   · simp [Wrap_handler, hp] at h
     obtain ⟨_, rfl⟩ := h
-    simp [laterStages, names] at hs hin
-    rcases hs with rfl | rfl | rfl | rfl | rfl <;> simp at hin
-  · refine ⟨["location", "newRequestInfo"], (names tr).drop 3, ?_, ?_⟩
-    · cases blocked <;> cases hc : dev.1 <;> cases hl : loc.2.2 <;>
-        simp [Wrap_handler, hp, hc, hl] at h <;> obtain ⟨_, rfl⟩ := h <;> simp [names]
-    · simp [laterStages] at hs
-      rcases hs with rfl | rfl | rfl | rfl | rfl <;> simp
+    simp [laterStages, lookups, names] at hs hin
+    rcases hs with rfl | rfl | rfl | rfl | rfl | rfl | rfl <;> simp at hin
+  · cases gb
+    · refine ⟨?_, fun hl => ⟨["isBlockedGlobally", "location", "newRequestInfo"], (names tr).drop 4, ?_, ?_⟩⟩
+      · cases pb <;> cases hc : dev.1 <;> cases hl : loc.2.2 <;>
+          simp [Wrap_handler, hp, hc, hl] at h <;> obtain ⟨_, rfl⟩ := h <;> simp [names]
+      · cases pb <;> cases hc : dev.1 <;> cases hl : loc.2.2 <;>
+          simp [Wrap_handler, hp, hc, hl] at h <;> obtain ⟨_, rfl⟩ := h <;> simp [names]
+      · simp [laterStages] at hl
+        rcases hl with rfl | rfl | rfl | rfl | rfl <;> simp
+    · simp [Wrap_handler, hp] at h
+      obtain ⟨_, rfl⟩ := h
+      simp [laterStages, lookups, names] at hs hin
+      rcases hs with rfl | rfl | rfl | rfl | rfl | rfl | rfl <;> simp at hin
 
 /-- A request that nothing rejects is processed: the device result is handled and, if it lets the
 request continue and the ECS option was fine, the rest of the pipeline runs. -/
 theorem unblocked_is_processed (mw : S_ratelimitmw_Middleware) (u1 u3 : Unit) (port : Int)
     (l : Option S_geoip_Location) (e : Option S_dnsmsg_ECS) (ri : S_agd_RequestInfo)
     (de le : Option String) (cx : AbsPtr) (next : Option String) (hp : port ≠ 0) :
-    ∃ tr, Wrap_handler mw u1 port u3 (l, e, none) (some ri) false (true, none) de le cx next = some (next, tr) ∧
+    ∃ tr, Wrap_handler mw u1 port u3 false (l, e, none) (some ri) false (true, none) de le cx next = some (next, tr) ∧
       "serveWithRatelimiting" ∈ names tr := by
   simp [Wrap_handler, hp, names]
 
-/-- Non-vacuity of the handler theorems: a concrete run in which the access check rejects the request. -/
+/-- Non-vacuity of the handler theorems: concrete runs in which the global and the profile check reject the request. -/
 example (mw : S_ratelimitmw_Middleware) (ri : S_agd_RequestInfo) :
-    (Wrap_handler mw () 53 () (none, none, none) (some ri) true (true, none) none none true none).map (·.1) = some none := by
+    (Wrap_handler mw () 53 () false (none, none, none) (some ri) true (true, none) none none true none).map (·.1) = some none := by
+  simp [Wrap_handler]
+example (mw : S_ratelimitmw_Middleware) :
+    (Wrap_handler mw () 53 () true (none, none, none) none false (true, none) none none true none).map (·.1) = some none := by
   simp [Wrap_handler]
 
 /-! ## Where the profile's access object comes from (third deepening)
